@@ -17,7 +17,7 @@ RULE = ("seeded scene with a FrozenPhonons / AtomsEnsemble potential (1-4 config
         "directions, ensemble_mean T/F, exit planes, scans, detectors). Reference for configuration k: displaced atoms from an "
         "independent model of the seeded displacement (explicit seeds) or from a fresh FrozenPhonons, a plain Potential of that "
         "configuration, the same incident wave, eager. Subjects: eager ensemble call; lazy ensemble call computed by SimScheduler "
-        "(configuration blocks reordered / interleaved / recomputed). distinct = (scenario hash, schedule hash); non-trivial = >=2 "
+        "(configuration blocks reordered / interleaved / recomputed); two different ensembles computed together in one dask graph. distinct = (scenario hash, schedule hash); non-trivial = >=2 "
         "configurations or a schedule with a real choice")
 ASSUMPTIONS = ["model of the displacement: rng=default_rng(seed_k); r=rng.normal(size=(n,3)); pos[:,axis]+=sigma*r[:,axis] "
                "(the documented algorithm); checked against list(FrozenPhonons) to 1e-6 A (sigmas are stored in single precision)",
@@ -46,6 +46,7 @@ def draw_scenario(ch):
     if ch.bool(0.6, "explicit-seeds"):
         fp["seed"] = [ch.range(1, 10000, "seed-k") for _ in range(fp["num_configs"])]
     sc["gen_chunks"] = ch.range(1, max(1, fp["num_configs"]), "gen-chunks")
+    sc["joint"] = ch.bool(0.4, "joint-compute")
     return sc
 
 
@@ -209,6 +210,36 @@ def run_one(run):
     except Exception as e:  # noqa: BLE001
         run.violate("ensemble-run-succeeds", sig(sc, "raise", "lazy", {"exc": type(e).__name__}),
                     f"lazy ensemble run raised {type(e).__name__}: {e} at {tb(e)} while every per-configuration run succeeded")
+    # ---- subject 3: two different ensembles computed together in one dask graph ------------------------------------
+    if sc.get("joint"):
+        import copy as _copy
+        import dask
+
+        sc2 = _copy.deepcopy(sc)
+        s2 = sc2["potential"]["fp"]["seed"]
+        sc2["potential"]["fp"]["seed"] = [x + 1000 for x in s2] if isinstance(s2, list) else s2 + 17
+        try:
+            members2 = [pipeline(sc2, lazy=False, max_batch="auto", atoms_override=a) for a in list(make_fp(sc2))]
+        except (HarnessError, InjectedCrash):
+            raise
+        except Exception:  # noqa: BLE001
+            members2 = None
+        if members2 is not None:
+            sim3 = run.add_sim(Sim(ch, draw_sim_config(ch)))
+            try:
+                with sim3:
+                    la, lb = as_list(pipeline(sc, lazy=True, max_batch=knobs["max_batch"])), as_list(pipeline(sc2, lazy=True, max_batch=knobs["max_batch"]))
+                    arrays = dask.compute(*[x.array for x in la + lb], optimize_graph=sim3.optimize_graph)
+                for x, arr in zip(la + lb, arrays):
+                    x._array = arr
+                check_against_members(run, sc, "lazy-joint", la, members, rtol, atol)
+                check_against_members(run, sc2, "lazy-joint", lb, members2, rtol, atol)
+                run.note("reach_joint_compute")
+            except (HarnessError, InjectedCrash):
+                raise
+            except Exception as e:  # noqa: BLE001
+                run.violate("ensemble-run-succeeds", sig(sc, "raise", "lazy-joint", {"exc": type(e).__name__}),
+                            f"joint compute of two ensembles raised {type(e).__name__}: {e} at {tb(e)}")
     if n > 1:
         run.nontrivial = True
         run.note("reach_multi_config")
